@@ -130,6 +130,30 @@ theorem export_glue_indirect_params_correct (p : Nat) (hp : p = 4 ∨ p = 8) (ca
          (recPtr, elemSize p (.record f.params), alignment p (.record f.params)) :: s0.freed, s0.st) :=
   call_export_indirect_correct p hp canon f recPtr s0 rv hind hmr hrflat hrv ss h
 
+/-- **Import glue, result through the return area** (memory-free flat parameters; result of ANY type
+needing more than one flat slot — strings, lists, records, …).  For any machine state and return-area
+address: exactly one core call, whose operands are the canonical flat lowering of the arguments
+followed by the return-area pointer; the glue returns exactly what the canonical ABI `load`s from the
+return area in the memory the callee left, and is stuck exactly when the spec traps; nothing is freed,
+memory and heap are untouched. -/
+theorem import_glue_retptr_correct (p : Nat) (hp : p = 4 ∨ p = 8) (canon : Ty → Bool) (f : Func) (t : Ty)
+    (hres : f.result = some t) (vals : List Val) (retAddr : Nat) (s0 : MSt)
+    (hm : memFreeAll f.params = true) (ht : Spec.hasTys f.params vals = true)
+    (hflat : (flattenList f.params).length ≤ 16) (hrflat : (flatten t).length > 1)
+    (ss : List Stmt) (h : call canon .guestImport true false f = .ok ss) :
+    (execStmts { p, args := vals.map MV.v, rps := [retAddr] } s0 ss).map (fun r => (r.2.calls, r.2.freed, r.2.st)) =
+      (Spec.load p s0.st.mem t retAddr).map fun rv =>
+        (("Return", [MV.v rv]) ::
+          ("CallWasm", (specLowerAll p f.params vals {}).1.map MV.c ++ [MV.c ⟨ptrFT p, retAddr⟩]) :: s0.calls,
+         s0.freed, s0.st) :=
+  call_import_retptr_correct p hp canon f t hres vals retAddr s0 hm ht hflat hrflat ss h
+
+/-- Non-vacuity of `import_glue_retptr_correct`: `f(a: u32) -> tuple<string, u8>`. -/
+example :
+    (flatten (.tuple [.string, .u8])).length > 1 ∧
+    ∃ ss, call (fun _ => false) .guestImport true false (Func.mk false [.u32] (some (.tuple [.string, .u8]))) = .ok ss :=
+  ⟨by decide, ⟨_, rfl⟩⟩
+
 /-- Non-vacuity of `export_glue_indirect_params_correct`: `f(a: string, b0..b15: u64, c: u8) -> u32`
 has 18 flat parameters; its record is 144 bytes on wasm32 (trailing padding after the `u8`). -/
 example :
